@@ -634,7 +634,10 @@ struct AckedOp {
 fn acked_ops(case: &Case, evs: &[hist::Ev]) -> std::collections::BTreeMap<u64, Vec<AckedOp>> {
     use std::collections::BTreeMap;
     let hmode = case.get("hmode") as u8;
-    let handoffs = ST.with(|s| s.borrow().handoffs.clone());
+    let handoffs: Vec<_> = ST.with(|s| {
+        let s = s.borrow();
+        s.handoffs.iter().take(s.crash_handoffs).cloned().collect()
+    });
     // barriers: (inv, ret)
     let mut barriers = vec![];
     let mut inv = None;
@@ -691,7 +694,11 @@ pub async fn c04_crash_enumeration(h: &mut Hyb) {
     let case = h.case.clone();
     let thorough = case.get("thorough") != 0;
     let n = simdev::writes_len();
-    ST.with(|s| s.borrow_mut().crash_writes = n);
+    ST.with(|s| {
+        let mut s = s.borrow_mut();
+        s.crash_writes = n;
+        s.crash_handoffs = s.handoffs.len();
+    });
     let pages_of = |m: usize| simdev::DISK.with(|d| d.borrow().writes[m].data.len().div_ceil(simdev::PAGE));
     let mut points: Vec<(usize, u64)> = vec![];
     let focus = case.get("focus_tail").max(0) as usize;
@@ -727,11 +734,15 @@ pub async fn c04_crash_enumeration(h: &mut Hyb) {
     }
     points.sort();
     points.dedup();
+    let second_life = case.get("second_life") != 0 && case.clients.get(1).map(|c| !c.is_empty()).unwrap_or(false);
     for (j, (m, mask)) in points.into_iter().enumerate() {
         let case = case.clone();
+        // second life after this recovery? 0 no; 1 the second crash comes after everything the second life wrote;
+        // 2 at a random prefix of it
+        let second = if second_life && crate::choice::io_chance(if thorough { 1 } else { 2 }, 3) { 1 + crate::choice::io_draw(2) } else { 0 };
         crate::run::push_follow_up(
             format!("recovery at crash point {m}/{n} mask {mask:#x}"),
-            Box::new(move || recover_on_prefix(case, j as u64, m, mask, n)),
+            Box::new(move || recover_on_prefix(case, j as u64, m, mask, n, second)),
         );
     }
     // the process dies: whatever was in flight never completes
@@ -739,22 +750,57 @@ pub async fn c04_crash_enumeration(h: &mut Hyb) {
     h.shutdown(false).await;
 }
 
-/// Runs inside its own simulated execution.
-fn recover_on_prefix(case: Case, j: u64, m: usize, mask: u64, n: usize) {
-    use crate::{simdev, types::Tagged};
-    // image = issue-order prefix + tear
+/// Device image as of crash point (m, mask) of the workload's write log (`n` writes), plus - for the second crash of
+/// a second life - the first `p` of the writes `lo..` issued after the first recovery began.
+fn crash_image(m: usize, mask: u64, n: usize, second: Option<(usize, usize)>) -> Vec<Vec<u8>> {
+    use crate::simdev;
     simdev::DISK.with(|d| {
-        let mut d = d.borrow_mut();
+        let d = d.borrow();
         let sizes: Vec<usize> = d.parts.iter().map(|p| p.len()).collect();
         let mut img: Vec<Vec<u8>> = sizes.iter().map(|s| vec![0u8; *s]).collect();
-        for w in d.writes.iter().take(m) {
+        let mut put = |img: &mut Vec<Vec<u8>>, w: &simdev::WriteRec| {
             let end = (w.offset + w.data.len()).min(img[w.part].len());
             img[w.part][w.offset..end].copy_from_slice(&w.data[..end - w.offset]);
+        };
+        for w in d.writes.iter().take(m) {
+            put(&mut img, w);
         }
         if mask != 0 && m < n {
-            let w = d.writes[m].clone();
-            simdev::apply_torn(&mut img, &w, mask);
+            simdev::apply_torn(&mut img, &d.writes[m], mask);
         }
+        if let Some((lo, p)) = second {
+            for w in d.writes.iter().skip(lo).take(p) {
+                put(&mut img, w);
+            }
+        }
+        img
+    })
+}
+
+async fn read_universe(cache: &crate::hybscn::HCache, keys: u64, kind: &'static str, j: u64) {
+    use crate::types::Tagged;
+    for k in 0..keys {
+        // code: version, or u32::MAX miss, u32::MAX-1 error, u32::MAX-2 garbage, u32::MAX-3 foreign
+        let code: u64 = match cache.get(&k).await {
+            Ok(Some(e)) => match check_value(e.value()) {
+                Tagged::Ok { key, ver, .. } if key == k => ver as u64,
+                Tagged::Ok { .. } => (u32::MAX - 3) as u64,
+                Tagged::Garbage => (u32::MAX - 2) as u64,
+            },
+            Ok(None) => u32::MAX as u64,
+            Err(_) => (u32::MAX - 1) as u64,
+        };
+        hist::ev(kind, j, k, code);
+    }
+}
+
+/// Runs inside its own simulated execution.
+fn recover_on_prefix(case: Case, j: u64, m: usize, mask: u64, n: usize, second: usize) {
+    use crate::simdev;
+    // image = issue-order prefix + tear
+    let img = crash_image(m, mask, n, None);
+    simdev::DISK.with(|d| {
+        let mut d = d.borrow_mut();
         d.parts = img;
         d.inflight = 0;
     });
@@ -764,26 +810,78 @@ fn recover_on_prefix(case: Case, j: u64, m: usize, mask: u64, n: usize) {
     hist::fault("crash_point");
     hist::ev("crash_begin", j, m as u64, mask);
     let keys = case.get("keys").max(1) as u64;
+    // everything written from here on (by the recovery itself and by the second life) belongs to this follow-up
+    let lo = simdev::writes_len();
     shuttle::future::block_on(async move {
         let mut h = Hyb { g: crate::hybscn::geo(&case), case: case.clone(), ctl: crate::hybscn::new_ctl(&case), cache: None, held: vec![] };
         if !h.reopen().await {
             return;
         }
         let cache = h.cache.clone().unwrap();
-        for k in 0..keys {
-            // code: version, or u32::MAX miss, u32::MAX-1 error, u32::MAX-2 garbage, u32::MAX-3 foreign
-            let code: u64 = match cache.get(&k).await {
-                Ok(Some(e)) => match check_value(e.value()) {
-                    Tagged::Ok { key, ver, .. } if key == k => ver as u64,
-                    Tagged::Ok { .. } => (u32::MAX - 3) as u64,
-                    Tagged::Garbage => (u32::MAX - 2) as u64,
-                },
-                Ok(None) => u32::MAX as u64,
-                Err(_) => (u32::MAX - 1) as u64,
-            };
-            hist::ev("crash_get", j, k, code);
-        }
+        read_universe(&cache, keys, "crash_get", j).await;
         hist::ev("crash_end", j, 0, 0);
+        if second != 0 {
+            // second life: the recovered store is used again, then the process dies a second time
+            hist::fault("second_life");
+            hist::ev("g2_begin", j, 0, 0);
+            for op in case.clients.get(1).cloned().unwrap_or_default() {
+                match op {
+                    Op::Insert { k, w, .. } => {
+                        let ver = crate::hybscn::fresh_ver();
+                        let len = crate::hybscn::value_len(&h.g, w.min(1), ver);
+                        crate::hybscn::model_register(k, ver, len, 0, w.min(1));
+                        hist::ev("g2_insert", j, k, ver as u64);
+                        drop(cache.insert(k, crate::types::make_value(k, ver, len, false)));
+                    }
+                    Op::Remove { k } => {
+                        hist::ev("g2_remove", j, k, 0);
+                        cache.remove(&k);
+                    }
+                    _ => {}
+                }
+            }
+            // write-on-eviction: everything resident is handed to the disk tier now; then all of it is flushed
+            cache.memory().evict_all();
+            cache.storage().wait().await;
+            hist::ev("g2_acked", j, 0, 0);
+            let hi = simdev::writes_len();
+            hist::ev("g2_end", j, lo as u64, hi as u64);
+            let case2 = case.clone();
+            crate::run::push_follow_up(
+                format!("second recovery after crash point {m}/{n} mask {mask:#x} + second life"),
+                Box::new(move || recover_second(case2, j, m, mask, n, lo, hi, second)),
+            );
+        }
+        drop(cache);
+        crate::run::phase_done();
+        h.shutdown(false).await;
+    });
+}
+
+/// The second crash of a second life: image = first crash image + a prefix of what the first recovery and the second
+/// life wrote; recover once more and read the key universe.
+#[allow(clippy::too_many_arguments)]
+fn recover_second(case: Case, j: u64, m: usize, mask: u64, n: usize, lo: usize, hi: usize, second: usize) {
+    use crate::simdev;
+    let total = hi - lo;
+    let p = if second == 1 || total == 0 { total } else { crate::choice::io_draw(total + 1) };
+    let img = crash_image(m, mask, n, Some((lo, p)));
+    simdev::DISK.with(|d| {
+        let mut d = d.borrow_mut();
+        d.parts = img;
+        d.inflight = 0;
+    });
+    hist::fault("second_crash_point");
+    hist::ev("crash2_begin", j, p as u64, total as u64);
+    let keys = case.get("keys").max(1) as u64;
+    shuttle::future::block_on(async move {
+        let mut h = Hyb { g: crate::hybscn::geo(&case), case: case.clone(), ctl: crate::hybscn::new_ctl(&case), cache: None, held: vec![] };
+        if !h.reopen().await {
+            return;
+        }
+        let cache = h.cache.clone().unwrap();
+        read_universe(&cache, keys, "crash2_get", j).await;
+        hist::ev("crash2_end", j, 0, 0);
         drop(cache);
         crate::run::phase_done();
         h.shutdown(false).await;
@@ -792,152 +890,263 @@ fn recover_on_prefix(case: Case, j: u64, m: usize, mask: u64, n: usize) {
 
 pub fn c04_post(case: &Case) {
     use crate::simdev;
-    let evs = hist::events_clone();
+    use std::collections::{BTreeMap, BTreeSet};
+    let all_evs = hist::events_clone();
+    // the workload proper ends where the first recovery begins; everything later belongs to follow-up executions
+    let wl_end = all_evs.iter().position(|e| e.kind == "crash_begin").unwrap_or(all_evs.len());
+    let evs = &all_evs[..wl_end];
     let n = ST.with(|s| s.borrow().crash_writes);
-    let writes: Vec<simdev::WriteRec> = simdev::DISK.with(|d| d.borrow().writes.iter().take(n).cloned().collect());
-    let ops = acked_ops(case, &evs);
-    let handoffs = ST.with(|s| s.borrow().handoffs.clone());
+    let all_writes: Vec<simdev::WriteRec> = simdev::DISK.with(|d| d.borrow().writes.clone());
+    let writes = &all_writes[..n.min(all_writes.len())];
+    let ops = acked_ops(case, evs);
+    let handoffs: Vec<_> = ST.with(|s| {
+        let s = s.borrow();
+        s.handoffs.iter().take(s.crash_handoffs).cloned().collect::<Vec<_>>()
+    });
     if std::env::var("VERIF_DEBUG").is_ok() {
-        eprintln!("[c04] writes {n}, keys with ops {}, handoffs {}", ops.len(), ST.with(|s| s.borrow().handoffs.len()));
+        eprintln!("[c04] writes {n}, keys with ops {}, handoffs {}", ops.len(), handoffs.len());
         for (k, v) in ops.iter().take(3) {
             eprintln!("[c04] key {k}: {v:?}");
         }
     }
-    let versions: std::collections::BTreeMap<u64, std::collections::BTreeSet<u32>> =
-        ST.with(|s| s.borrow().model.iter().map(|(k, m)| (*k, m.versions.keys().copied().collect())).collect());
+    let versions: BTreeMap<u64, BTreeSet<u32>> = ST.with(|s| s.borrow().model.iter().map(|(k, m)| (*k, m.versions.keys().copied().collect())).collect());
     let g = crate::hybscn::geo(case);
+    let hmode = case.get("hmode") as u8;
     let first_block = if g.tomb { 1 } else { 0 };
     let is_clean = |w: &simdev::WriteRec| w.part >= first_block && w.offset == 0 && w.data.len() == simdev::PAGE && w.data.iter().all(|b| *b == 0);
-    let mut cur: Option<(u64, usize, u64)> = None;
-    let mut regress_cache: std::collections::BTreeMap<(usize, u64), bool> = Default::default();
-    let mut ended: std::collections::BTreeSet<u64> = Default::default();
-    for e in evs.iter().filter(|e| e.kind == "crash_end") {
-        ended.insert(e.a);
+    let mut regress_cache: BTreeMap<(usize, u64, usize, usize), bool> = Default::default();
+    let mut regress_of = |m: usize, mask: u64, second: Option<(usize, usize)>| -> bool {
+        *regress_cache.entry((m, mask, second.map(|x| x.0).unwrap_or(0), second.map(|x| x.1).unwrap_or(0))).or_insert_with(|| {
+            let img = crash_image(m, mask, n, second);
+            img.iter().skip(first_block).any(|b| {
+                let (located, _) = crate::parser::scan_block(b, g.blob_index_size);
+                located.windows(2).any(|w| w[1].sequence < w[0].sequence)
+            })
+        })
+    };
+    let ended: BTreeSet<u64> = all_evs.iter().filter(|e| e.kind == "crash_end").map(|e| e.a).collect();
+    let ended2: BTreeSet<u64> = all_evs.iter().filter(|e| e.kind == "crash2_end").map(|e| e.a).collect();
+    // crash point of follow-up j
+    let mut point: BTreeMap<u64, (usize, u64)> = BTreeMap::new();
+    // second life of follow-up j: per key the operations in order (Some(version) insert, None delete), the hashes shed
+    // while it ran, whether its final wait() returned, and its write range
+    #[derive(Default)]
+    struct Life {
+        ops: BTreeMap<u64, Vec<Option<u32>>>,
+        shed: BTreeSet<u64>,
+        acked: bool,
+        lo: usize,
+        hi: usize,
+        open: bool,
     }
-    for e in &evs {
+    let mut lives: BTreeMap<u64, Life> = BTreeMap::new();
+    let mut cur_life: Option<u64> = None;
+    for e in &all_evs {
         match e.kind {
             "crash_begin" => {
-                cur = Some((e.a, e.b as usize, e.c));
+                point.insert(e.a, (e.b as usize, e.c));
+            }
+            "g2_begin" => {
+                lives.entry(e.a).or_default().open = true;
+                cur_life = Some(e.a);
+            }
+            "g2_insert" => lives.entry(e.a).or_default().ops.entry(e.b).or_default().push(Some(e.c as u32)),
+            "g2_remove" => lives.entry(e.a).or_default().ops.entry(e.b).or_default().push(None),
+            "g2_acked" => lives.entry(e.a).or_default().acked = true,
+            "g2_end" => {
+                let l = lives.entry(e.a).or_default();
+                l.lo = e.b as usize;
+                l.hi = e.c as usize;
+                l.open = false;
+                cur_life = None;
+            }
+            "shed" => {
+                if let Some(j) = cur_life {
+                    lives.entry(j).or_default().shed.insert(e.a);
+                }
+            }
+            _ => {}
+        }
+    }
+    let decode = |k: u64, code: u64, what: &str| -> Option<Result<u32, ()>> {
+        if code == u32::MAX as u64 {
+            Some(Err(()))
+        } else if code == (u32::MAX - 1) as u64 {
+            None
+        } else if code == (u32::MAX - 2) as u64 {
+            hist::violation("C04", "garbage-value-after-crash", format!("{what}: key {k} reads bytes nobody inserted"), &[]);
+            None
+        } else if code == (u32::MAX - 3) as u64 {
+            hist::violation("C04", "foreign-value-after-crash", format!("{what}: key {k} reads another key's value"), &[]);
+            None
+        } else if !versions.get(&k).map(|v| v.contains(&(code as u32))).unwrap_or(false) {
+            hist::violation("C04", "garbage-value-after-crash", format!("{what}: key {k} reads unknown version v{code}"), &[]);
+            None
+        } else {
+            Some(Ok(code as u32))
+        }
+    };
+    let client_task = evs.iter().find(|e| e.kind == "inv").map(|e| e.task as u64).unwrap_or(u64::MAX);
+    // the strong clause against the workload's acknowledged operations, for a read `got` of key k at crash time t;
+    // `may_miss`: a miss is excused (an unacknowledged delete of the second life may have been applied)
+    let mut judge_first_life = |k: u64, got: Result<u32, ()>, t: u64, what: &str, shape_common: &Vec<(&'static str, String)>, may_miss: bool| {
+        let Some(kops) = ops.get(&k) else { return };
+        let acked: Vec<&AckedOp> = kops.iter().filter(|o| o.acked_at < t).collect();
+        let Some(last) = acked.iter().max_by_key(|o| o.at) else { return };
+        hist::set_nontrivial();
+        hist::probe("c04_acked_key_judged");
+        match (last.ver, got) {
+            (Some(av), Ok(ver)) => {
+                if ver < av {
+                    hist::violation(
+                        "C04",
+                        "acked-version-regressed",
+                        format!("{what} (no block reclaimed): write of ({k},v{av}) was acknowledged as flushed at {} but the key reads older v{ver}", last.acked_at),
+                        shape_common,
+                    );
+                }
+            }
+            (Some(av), Err(())) => {
+                let later_delete = kops.iter().any(|o| o.ver.is_none() && o.at > last.at && o.at < t);
+                if !later_delete && !may_miss {
+                    hist::violation(
+                        "C04",
+                        "acked-version-lost",
+                        format!("{what} (no block reclaimed): write of ({k},v{av}) was acknowledged as flushed at {} but the key reads as a miss", last.acked_at),
+                        shape_common,
+                    );
+                }
+            }
+            (None, Ok(ver)) => {
+                if g.tomb && ver < last.next_ver_at {
+                    // classification aid: was that version handed to the disk tier by a background task whose
+                    // submission came after the delete (the hand-off raced the delete)?
+                    let raced = handoffs.iter().any(|(hk, hv, hs, ht)| {
+                        *hk == k && *hv == ver && *ht != client_task && evs.iter().any(|e| e.kind == "submitted" && e.a == crate::hybscn::hash_of(hmode, k) && e.b == *hs && e.seq > last.at)
+                    });
+                    let mut shape = shape_common.clone();
+                    shape.push(("background_handoff_after_delete", raced.to_string()));
+                    hist::violation(
+                        "C04",
+                        "acked-delete-undone",
+                        format!("{what} (no block reclaimed): delete of key {k} was acknowledged as flushed at {} but the key reads v{ver} from before it", last.acked_at),
+                        &shape,
+                    );
+                } else if !g.tomb {
+                    if let Some(ai) = acked.iter().filter(|o| o.ver.is_some()).max_by_key(|o| o.at) {
+                        if ver < ai.ver.unwrap() {
+                            hist::violation("C04", "acked-version-regressed", format!("{what}: key {k} reads v{ver}, older than acknowledged v{}", ai.ver.unwrap()), shape_common);
+                        }
+                    }
+                }
+            }
+            (None, Err(())) => {}
+        }
+    };
+    for e in &all_evs {
+        match e.kind {
+            "crash_begin" => {
                 if !ended.contains(&e.a) {
                     // the recovery never got to the point of serving lookups (a panic is reported separately)
                     hist::probe("c04_recovery_incomplete");
                 }
             }
-            "crash_get" => {
-                let Some((j, m, mask)) = cur else { continue };
-                if j != e.a {
-                    continue;
+            "crash2_begin" => {
+                if !ended2.contains(&e.a) {
+                    hist::probe("c04_recovery_incomplete");
                 }
+            }
+            "crash_get" => {
+                let Some(&(m, mask)) = point.get(&e.a) else { continue };
                 let (k, code) = (e.b, e.c);
                 let t = if m < n { writes[m].issue_seq } else { u64::MAX };
                 hist::probe("c04_key_judged");
-                let got: Result<u32, ()> = if code == u32::MAX as u64 {
-                    Err(())
-                } else if code == (u32::MAX - 1) as u64 {
-                    continue;
-                } else if code == (u32::MAX - 2) as u64 {
-                    hist::violation("C04", "garbage-value-after-crash", format!("crash point {m}/{n} mask {mask:#x}: key {k} reads bytes nobody inserted"), &[]);
-                    continue;
-                } else if code == (u32::MAX - 3) as u64 {
-                    hist::violation("C04", "foreign-value-after-crash", format!("crash point {m}/{n} mask {mask:#x}: key {k} reads another key's value"), &[]);
-                    continue;
-                } else {
-                    Ok(code as u32)
-                };
-                if let Ok(ver) = got {
-                    if !versions.get(&k).map(|v| v.contains(&ver)).unwrap_or(false) {
-                        hist::violation("C04", "garbage-value-after-crash", format!("crash point {m}/{n}: key {k} reads unknown version v{ver}"), &[]);
-                        continue;
-                    }
-                }
+                let what = format!("crash point {m}/{n} mask {mask:#x}");
+                let Some(got) = decode(k, code, &what) else { continue };
                 if writes.iter().take(m).any(is_clean) {
                     hist::probe("c04_weak_clause_only");
                     continue;
                 }
-                let Some(kops) = ops.get(&k) else { continue };
-                let acked: Vec<&AckedOp> = kops.iter().filter(|o| o.acked_at < t).collect();
-                let Some(last) = acked.iter().max_by_key(|o| o.at) else { continue };
-                hist::set_nontrivial();
-                hist::probe("c04_acked_key_judged");
-                // classification aid: does a block of this crash image hold a sequence regression (recovery drops what
-                // follows it)?
-                let regress = *regress_cache.entry((m, mask)).or_insert_with(|| {
-                    let sizes: Vec<usize> = simdev::DISK.with(|d| d.borrow().parts.iter().map(|p| p.len()).collect());
-                    let mut img: Vec<Vec<u8>> = sizes.iter().map(|s| vec![0u8; *s]).collect();
-                    for w in writes.iter().take(m) {
-                        let end = (w.offset + w.data.len()).min(img[w.part].len());
-                        img[w.part][w.offset..end].copy_from_slice(&w.data[..end - w.offset]);
-                    }
-                    if mask != 0 && m < n {
-                        simdev::apply_torn(&mut img, &writes[m], mask);
-                    }
-                    img.iter().skip(first_block).any(|b| {
-                        let (located, _) = crate::parser::scan_block(b, g.blob_index_size);
-                        located.windows(2).any(|w| w[1].sequence < w[0].sequence)
-                    })
-                });
+                if !ops.contains_key(&k) {
+                    continue;
+                }
                 let shape_common = vec![
                     ("tomb", g.tomb.to_string()),
                     ("torn", (mask != 0).to_string()),
                     ("blob_pages", case.get("blob_pages").to_string()),
-                    ("sequence_regression_in_a_block", regress.to_string()),
+                    ("sequence_regression_in_a_block", regress_of(m, mask, None).to_string()),
                 ];
-                match (last.ver, got) {
-                    (Some(av), Ok(ver)) => {
-                        if ver < av {
-                            hist::violation(
+                judge_first_life(k, got, t, &what, &shape_common, false);
+            }
+            "crash2_get" => {
+                let Some(&(m, mask)) = point.get(&e.a) else { continue };
+                let Some(life) = lives.get(&e.a) else { continue };
+                let Some(c2) = all_evs.iter().find(|x| x.kind == "crash2_begin" && x.a == e.a) else { continue };
+                let (p, total) = (c2.b as usize, c2.c as usize);
+                let (k, code) = (e.b, e.c);
+                let t = if m < n { writes[m].issue_seq } else { u64::MAX };
+                hist::probe("c04_second_life_key_judged");
+                let what = format!("crash point {m}/{n} mask {mask:#x}, second life, second crash after {p}/{total} of its writes");
+                let Some(got) = decode(k, code, &what) else { continue };
+                let second_writes = &all_writes[life.lo.min(all_writes.len())..(life.lo + p).min(all_writes.len())];
+                if writes.iter().take(m).any(is_clean) || second_writes.iter().any(is_clean) {
+                    hist::probe("c04_weak_clause_only");
+                    continue;
+                }
+                let shape_common = vec![
+                    ("tomb", g.tomb.to_string()),
+                    ("torn", (mask != 0).to_string()),
+                    ("blob_pages", case.get("blob_pages").to_string()),
+                    ("sequence_regression_in_a_block", regress_of(m, mask, Some((life.lo, p))).to_string()),
+                    ("second_life", "true".to_string()),
+                ];
+                let kops: &[Option<u32>] = life.ops.get(&k).map(|v| v.as_slice()).unwrap_or(&[]);
+                let h = crate::hybscn::hash_of(hmode, k);
+                let acked2 = life.acked && p == total && !life.shed.contains(&h) && !rejected(case, k);
+                match (kops.last(), acked2) {
+                    (Some(Some(v2)), true) => {
+                        // the second life's last insert of the key was flushed before the second crash
+                        hist::set_nontrivial();
+                        hist::probe("c04_second_life_acked_key_judged");
+                        match got {
+                            Ok(ver) if ver == *v2 => {}
+                            Ok(ver) => hist::violation(
                                 "C04",
                                 "acked-version-regressed",
-                                format!("crash point {m}/{n} mask {mask:#x} (no block reclaimed): write of ({k},v{av}) was acknowledged as flushed at {} but the key reads older v{ver}", last.acked_at),
+                                format!("{what} (no block reclaimed): ({k},v{v2}) was written and flushed after the restart but the key reads older v{ver}"),
                                 &shape_common,
-                            );
-                        }
-                    }
-                    (Some(av), Err(())) => {
-                        let later_delete = kops.iter().any(|o| o.ver.is_none() && o.at > last.at && o.at < t);
-                        if !later_delete {
-                            hist::violation(
+                            ),
+                            Err(()) => hist::violation(
                                 "C04",
                                 "acked-version-lost",
-                                format!("crash point {m}/{n} mask {mask:#x} (no block reclaimed): write of ({k},v{av}) was acknowledged as flushed at {} but the key reads as a miss", last.acked_at),
+                                format!("{what} (no block reclaimed): ({k},v{v2}) was written and flushed after the restart but the key reads as a miss"),
                                 &shape_common,
-                            );
+                            ),
                         }
                     }
-                    (None, Ok(ver)) => {
-                        if g.tomb && ver < last.next_ver_at {
-                            // classification aid: was that version handed to the disk tier by a background task whose
-                            // submission came after the delete (the hand-off raced the delete)?
-                            let hmode = case.get("hmode") as u8;
-                            let client_task = evs.iter().find(|e| e.kind == "inv").map(|e| e.task as u64).unwrap_or(u64::MAX);
-                            let raced = handoffs.iter().any(|(hk, hv, hs, ht)| {
-                                *hk == k
-                                    && *hv == ver
-                                    && *ht != client_task
-                                    && evs.iter().any(|e| e.kind == "submitted" && e.a == crate::hybscn::hash_of(hmode, k) && e.b == *hs && e.seq > last.at)
-                            });
-                            let mut shape = shape_common.clone();
-                            shape.push(("background_handoff_after_delete", raced.to_string()));
+                    (Some(None), true) => {
+                        hist::set_nontrivial();
+                        hist::probe("c04_second_life_acked_key_judged");
+                        if let (true, Ok(ver)) = (g.tomb, got) {
                             hist::violation(
                                 "C04",
                                 "acked-delete-undone",
-                                format!("crash point {m}/{n} mask {mask:#x} (no block reclaimed): delete of key {k} was acknowledged as flushed at {} but the key reads v{ver} from before it", last.acked_at),
-                                &shape,
+                                format!("{what} (no block reclaimed): key {k} was deleted and the delete flushed after the restart but the key reads v{ver}"),
+                                &shape_common,
                             );
-                        } else if !g.tomb {
-                            if let Some(ai) = acked.iter().filter(|o| o.ver.is_some()).max_by_key(|o| o.at) {
-                                if ver < ai.ver.unwrap() {
-                                    hist::violation(
-                                        "C04",
-                                        "acked-version-regressed",
-                                        format!("crash point {m}/{n} mask {mask:#x}: key {k} reads v{ver}, older than acknowledged v{}", ai.ver.unwrap()),
-                                        &shape_common,
-                                    );
-                                }
-                            }
                         }
                     }
-                    (None, Err(())) => {}
+                    _ => {
+                        // nothing of the second life is acknowledged for this key: any of its own versions may show,
+                        // otherwise the first life's acknowledged state must still hold
+                        if let Ok(ver) = got {
+                            if kops.iter().any(|o| *o == Some(ver)) {
+                                continue;
+                            }
+                        }
+                        let may_miss = kops.iter().any(|o| o.is_none());
+                        judge_first_life(k, got, t, &what, &shape_common, may_miss);
+                    }
                 }
             }
             _ => {}
